@@ -12,8 +12,9 @@ CONSTANTS MaxTop, MaxSub, Deep, Small, Dump, OverwriteOnReturn
 N(text, sol, tsol) == [text |-> text, sol |-> sol, tsol |-> tsol]
 FileNames == {N("A.sol", TRUE, FALSE), N("B.sol", TRUE, FALSE), N("A.t.sol", TRUE, TRUE)}
              \cup (IF Small THEN {} ELSE {N("notes.txt", FALSE, FALSE)})
-DirNames  == {N("sub", FALSE, FALSE)}
-             \cup (IF Small THEN {} ELSE {N("lib.sol", TRUE, FALSE)})    \* a directory may be called x.sol
+\* a directory may be called x.sol or x.t.sol: it is still a directory (descended into, never read as a file)
+DirNames  == {N("sub", FALSE, FALSE), N("lib.sol", TRUE, FALSE)}
+             \cup (IF Small THEN {} ELSE {N("mocks.t.sol", TRUE, TRUE)})
 Contents  == {"c1", "c2", "c3"}
 Pats      == {"p1", "p2", "p3"}
 
